@@ -201,6 +201,17 @@ impl Driver {
             })
         };
         let mut b = StunClienteBuilder::new(rel);
+        if cfg.order as usize >= BUILDER_ORDERS.len() {
+            // orders 6..11: the same six orders on a builder that was already configured differently
+            // (the later call of each kind counts; with_fingerprint is idempotent)
+            b = b.with_max_transactions(cfg.max_tx + 3);
+            if cfg.mech != "none" {
+                b = b.with_mechanism("someone", "else", CredentialMechanism::ShortTerm(Some(Integrity::MessageIntegrity)));
+            }
+            if cfg.fp {
+                b = b.with_fingerprint();
+            }
+        }
         let steps: [&str; 3] = BUILDER_ORDERS[cfg.order as usize % BUILDER_ORDERS.len()];
         for st in steps {
             b = match st {
